@@ -61,7 +61,9 @@ var (
 const trail4 = 224
 const trail6 = 65280
 
-func trailOf4(d *dhcpv4.DHCPv4) []byte { return append([]byte(nil), d.Options.Get(dhcpv4.GenericOptionCode(trail4))...) }
+func trailOf4(d *dhcpv4.DHCPv4) []byte {
+	return append([]byte(nil), d.Options.Get(dhcpv4.GenericOptionCode(trail4))...)
+}
 
 func h4(beh string, tag byte) handler.Handler4 {
 	return func(req, resp *dhcpv4.DHCPv4) (out *dhcpv4.DHCPv4, stop bool) {
@@ -180,8 +182,12 @@ func register() {
 		f6 := func(args ...string) (handler.Handler6, error) { return nil, fmt.Errorf("synthetic setup failure") }
 		// a failing setup may also hand back a usable handler next to the error (dns, router and
 		// staticroute report a bad argument exactly like that): it still aborts start-up
-		fh4 := func(args ...string) (handler.Handler4, error) { return h4("modify", 99), fmt.Errorf("synthetic setup failure") }
-		fh6 := func(args ...string) (handler.Handler6, error) { return h6("modify", 99), fmt.Errorf("synthetic setup failure") }
+		fh4 := func(args ...string) (handler.Handler4, error) {
+			return h4("modify", 99), fmt.Errorf("synthetic setup failure")
+		}
+		fh6 := func(args ...string) (handler.Handler6, error) {
+			return h6("modify", 99), fmt.Errorf("synthetic setup failure")
+		}
 		for _, p := range []*plugins.Plugin{
 			{Name: "vfailh4", Setup4: fh4, Setup6: s6}, {Name: "vfailh6", Setup4: s4, Setup6: fh6},
 			{Name: "vs4", Setup4: s4}, {Name: "vs6", Setup6: s6}, {Name: "vsd", Setup4: s4, Setup6: s6},
